@@ -41,4 +41,22 @@ CHECKS = {
   "technique": "TLA+ model checking (TLC) + trace validation of long virtual-time dialing schedules",
   "ref": "DESIGN.md 5/C13",
  },
+ "C18": {
+  "text": "AnemoInflight (per-peer FIFO-fair semaphore with arrive / grant / poll / leave ok|err / cancel at every stage) is model-checked exhaustively for both wait modes and Max in {1,2} over 5 requests (Bound, NoLeak, FullAtRest, NoIdleWait, PerPeer, NoSenderNeverEnters; the leak-on-cancel spec mutant is refuted); TLC-generated behaviours are replayed step by step into the real InflightLimitLayer (through clones) with an explicit executor - arrive = create + first poll, cancel = drop the future, leave = finish the wrapped service with Ok/Err - and after every step the per-peer number of requests inside the wrapped service and every request's observable status must equal the specification's state.",
+  "note": "The wrapped service is a gauge controlled by the harness; tokio's semaphore fairness is part of what is observed. Behaviours are sampled by TLC's simulator (hundreds quick, thousands thorough), invariants are exhaustive.",
+  "technique": "TLA+ model checking (TLC) + replay of TLC-generated behaviours into the real layer",
+  "ref": "DESIGN.md 5/C18",
+ },
+ "C19": {
+  "text": "AnemoRate (GCRA per key, discrete time) is model-checked for every arrival pattern over 2 keys (WindowBound, Refusal, HintExact, PerKey; spec mutant refuted); all 3^8 arrival patterns at one instant are replayed against the real RateLimitLayer with an hour-long period, verdicts compared exactly (refusal = TooManyRequests + positive wait-nanos hint, request does not reach the service; missing sender = InternalServerError); timed runs in Block and ReturnError mode with real periods are recorded with two-sided timestamps and validated by AnemoRateTrace against the sound form of the window bound, Block mode must admit everything in bounded time.",
+  "note": "governor's clock cannot be substituted: the timed part checks necessary conditions only (delays can hide, never fabricate a violation).",
+  "technique": "TLA+ model checking (TLC) + exact replay of TLC behaviours + trace validation of timed runs",
+  "ref": "DESIGN.md 5/C19",
+ },
+ "C20": {
+  "text": "AnemoAuth is model-checked (Iff, RefusedNeverInside; spec mutant refuted); the allow-list decision table emitted by TLC (all 8 subsets x 5 senders incl. absent and an unlisted identity) is replayed into RequireAuthorizationLayer+AllowedPeers through the layer and a clone, and all 222 complete behaviours of 3 concurrent requests through 2 clones with a scripted authorizer are replayed with an explicit executor: after each step the set of requests the wrapped service was invoked for and each request's state must equal the specification's; a refusal must be exactly the authorizer's response (status, headers, body).",
+  "note": "Exhaustive for the stated bounds.",
+  "technique": "TLA+ model checking (TLC) + exhaustive replay of TLC tables/behaviours into the real layer",
+  "ref": "DESIGN.md 5/C20",
+ },
 }
